@@ -52,7 +52,9 @@ HID_STATUS = {'h1': 251, 'h2': 252, 'h3': 253}
 
 
 _PNAMES = ('x', 'item_id', 'k9')
-_PVALS = ('v', '42', 'a-b')
+# braces: the request target ends up in the error log line of the default 500 handler (a str.format template)
+_PVALS = ('{v}', '4{2', 'a-b}')
+_QUERY = 'f={0}&g={k}&h=}{'
 
 
 class _Cur:
@@ -321,9 +323,9 @@ def request(app, stack, exc, site='responder', junk=None, accept=None):
     _cur.fired = 0
     headers = [('Accept', accept)] if accept is not None else []
     if stack == 'wsgi':
-        res = wdrv.call(app, method='GET', raw_path='/p/' + _PVALS[_cur.seed % 3], headers=headers)
+        res = wdrv.call(app, method='GET', raw_path='/p/' + _PVALS[_cur.seed % 3], query=_QUERY, headers=headers)
     else:
-        res = adrv.call(app, method='GET', raw_path='/p/' + _PVALS[_cur.seed % 3], headers=headers, loop=the_loop())
+        res = adrv.call(app, method='GET', raw_path='/p/' + _PVALS[_cur.seed % 3], query=_QUERY, headers=headers, loop=the_loop())
     return res, _cur.calls, _cur.fired
 
 
